@@ -116,6 +116,7 @@ func verifC14StepProducers(full bool) {
 	w.genOther(1-f, full)
 	w.genProducers(f)
 	w.step(kind)
+	w.witnessDropped()
 	w.checkKeys()
 	w.checkTimed()
 	w.witnesses()
@@ -135,13 +136,13 @@ func verifC14StepChannels(full bool) {
 	w.genOther(1-f, full)
 	w.genChannels(f, nch)
 	w.step(kind)
+	w.witnessDropped()
 	w.checkKeys()
 	if full {
 		// also the channel list inside /lookup (forks on the producers' activity)
 		w.checkLookup(f)
 	}
 	w.reach(1, "step-ephemeral-key-removed-by-last-unregister", w.sawEphemeralRemoved)
-	w.reach(1, "step-empty-ephemeral-key-removed-by-unregister-of-a-non-producer", w.sawEphemeralDropped)
 	w.reach(1, "step-disconnect-ran-exit-path", w.sawDisconnect)
 }
 
